@@ -28,6 +28,7 @@ ASSUMPTIONS = ['a < b per dimension', 'NaN points are not valid inputs']
 BOXES = {
     'unit': (0.0, 1.0), 'sym': (-1.0, 1.0), 'asym': (-3.0, 7.0), 'small': (0.1, 0.3), 'neg': (-7.3, -2.1), 'offset': (1e6, 1e6 + 1),
     'tiny': (1e-9, 2e-9), 'huge': (-1e10, 1e10), 'extreme': (-1e300, 1e300),
+    'odd1': (-0.3, 1.1), 'odd2': (0.1, 0.7), 'third': (1.0 / 3.0, 2.0 / 3.0),
 }
 
 
@@ -382,26 +383,26 @@ CHECKERS = {'grid': check_grid, 'scale': check_scale, 'flat': check_flat, 'cdf':
 
 
 def strata(tier, seed):
-    top = 129 if tier == 'quick' else 257
+    top = 129 if tier == 'quick' else 1025
     gs = []
     for box in BOXES:
         for kind in ('uni', 'cheb'):
             for lo in range(2, top + 1, 16):
-                gs.append(dict(box=box, kind=kind, ns=list(range(lo, min(lo + 16, top + 1))), near_n=129 if tier == 'quick' else 257))
-    yield Stratum('index <-> point, all n, all indices', gs, 'grid', size=len(gs), chunk=2, bounds={'n': [2, top], 'boxes': list(BOXES)})
+                gs.append(dict(box=box, kind=kind, ns=list(range(lo, min(lo + 16, top + 1))), near_n=129 if tier == 'quick' else 1025))
+    yield Stratum('index <-> point, all n, all indices', gs, 'grid', seq=(tier == 'quick'), size=len(gs), chunk=2, bounds={'n': [2, top], 'boxes': list(BOXES)})
     dy = [(0.0, 1.0), (-1.0, 1.0), (-3.0, 5.0), (0.125, 0.375), (-8.0, -2.0), (1048576.0, 1048577.0), (2.0 ** -30, 2.0 ** -29)]
     ss = []
-    for d in (1, 2, 3, 4):
+    for d in ((1, 2, 3, 4) if tier == 'quick' else (1, 2, 3, 4, 5, 6)):
         combos = [[bx] * d for bx in dy] + ([list(dy[k:k + d]) for k in range(len(dy) - d + 1)] if d > 1 else [])
         for boxes in combos:
-            for n in (2, 3, 8):
+            for n in ((2, 3, 8) if tier == 'quick' else (2, 3, 4, 5, 8, 17, 64)):
                 ss.append(dict(d=d, boxes=[list(x) for x in boxes], n=n, long=(16385 if (n == 3 and boxes[0] == dy[2]) else (70001 if (n == 8 and boxes[0] == dy[0] and d == 2) else 0))))
-    yield Stratum('scaling, option broadcasting, rejection', ss, 'scale', size=len(ss), chunk=8, bounds={'d': [1, 4]})
-    shapes = [list(s) for d in (1, 2, 3, 4) for s in itertools.product(range(1, 5), repeat=d)]
+    yield Stratum('scaling, option broadcasting, rejection', ss, 'scale', seq=(tier == 'quick'), size=len(ss), chunk=8, bounds={'d': [1, 4 if tier == 'quick' else 6]})
+    shapes = [list(s) for d in ((1, 2, 3, 4) if tier == 'quick' else (1, 2, 3, 4, 5)) for s in itertools.product(range(1, 5 if tier == 'quick' else 6), repeat=d)]
     fs = [dict(shapes=shapes[i:i + 20]) for i in range(0, len(shapes), 20)]
-    yield Stratum('flat grid', fs, 'flat', size=len(fs), chunk=2, bounds={'shapes': '{1..4}^d, d <= 4'})
+    yield Stratum('flat grid', fs, 'flat', seq=(tier == 'quick'), size=len(fs), chunk=2, bounds={'shapes': '{1..4}^d, d <= 4' if tier == 'quick' else '{1..5}^d, d <= 5'})
     xs = []
-    for m in (1, 2, 3, 4):
-        for t in itertools.product([-1.5, 0.0, 0.0 + 2.0 ** -40, 2.0], repeat=m):
+    for m in ((1, 2, 3, 4) if tier == 'quick' else (1, 2, 3, 4, 5, 6)):
+        for t in itertools.product([-1.5, 0.0, 0.0 + 2.0 ** -40, 2.0] + ([] if tier == 'quick' else [1e300]), repeat=m):
             xs.append(dict(x=list(t)))
-    yield Stratum('empirical CDF', xs, 'cdf', size=len(xs), chunk=32, bounds={'sample size': [1, 4], 'ties': True})
+    yield Stratum('empirical CDF', xs, 'cdf', seq=(tier == 'quick'), size=len(xs), chunk=32, bounds={'sample size': [1, 4 if tier == 'quick' else 6], 'ties': True})
